@@ -117,6 +117,17 @@ func (r *c32Run) Main(s *sim.Sim) {
 		sort.Slice(out, func(i, j int) bool { return out[i] < out[j] })
 		return out
 	}
+	// id/mode of every item: a foreign SetMonitoringMode must not change it either
+	srvItemModes := func() []string {
+		e.srv.MonitoredItemService.Mu.Lock()
+		defer e.srv.MonitoredItemService.Mu.Unlock()
+		var out []string
+		for id, it := range e.srv.MonitoredItemService.Items {
+			out = append(out, fmt.Sprintf("%d/mode%d", id, it.Mode))
+		}
+		sort.Strings(out)
+		return out
+	}
 	settle := func() { time.Sleep(20 * time.Millisecond) } // background deletions
 
 	// pick an id of the requested class; owner = -1 if nobody owns it
@@ -171,6 +182,10 @@ func (r *c32Run) Main(s *sim.Sim) {
 				o := sess[(me+k)%len(sess)]
 				for _, sub := range o.subs {
 					if its := o.items[sub]; len(its) > 0 {
+						if op.Idx >= 8 && len(ss.subs) > 0 {
+							// the other session's item, addressed through a subscription of one's own
+							return ss.subs[op.Idx%len(ss.subs)], its[op.Idx%len(its)], "foreign-via-own-subscription"
+						}
 						return sub, its[op.Idx%len(its)], "foreign"
 					}
 				}
@@ -299,6 +314,7 @@ func (r *c32Run) Main(s *sim.Sim) {
 		case "deleteitems", "setmode":
 			sub, item, class := pickItem(me, op)
 			itemsBefore := srvItems()
+			modesBefore := srvItemModes()
 			var st ua.StatusCode
 			var err error
 			var okResp bool
@@ -342,6 +358,10 @@ func (r *c32Run) Main(s *sim.Sim) {
 				s.Probe(op.Kind + "-" + class)
 				if err == nil && okResp && !isBad(st) {
 					s.Fail("C32", "foreign-op-accepted", op.Kind+"-"+class+"-good", "op %d: session %d %s on %s item %d returned %v", oi, me, op.Kind, class, item, st)
+					return
+				}
+				if fmt.Sprint(srvItemModes()) != fmt.Sprint(modesBefore) {
+					s.Fail("C32", "foreign-op-effect", op.Kind+"-"+class+"-mode-effect", "op %d: session %d %s on %s item %d changed monitoring modes on the server: %v -> %v", oi, me, op.Kind, class, item, modesBefore, srvItemModes())
 					return
 				}
 				if fmt.Sprint(srvItems()) != fmt.Sprint(itemsBefore) {
